@@ -58,7 +58,7 @@ theorem langLoop_returns (v : Str) (hs : Sep v) :
     intro h
     obtain ⟨hle, hpre⟩ := h ms (by simp)
     have ihr := ih (fun m hm => h m (by simp [hm]))
-    unfold langLoop
+    unfold langLoop startGuard
     have hlt : ms - 1 < v.length := by simp [langPrefix] at hle; omega
     -- the byte before the match exists
     have hb : v[ms - 1]? = some v[ms - 1] := by simp [hlt]
@@ -99,5 +99,175 @@ theorem scanClass_returns (v : Str) (hs : Sep v) : (scanClass v).Returns := by
   | err => simp [Out.Returns]
   | panic => rw [h] at this; exact this.elim
   | hang => rw [h] at this; exact this.elim
+
+/-! ### What the scan finds -/
+
+/-- The language found by the scan is a class of the attribute: it follows `language-`, which is at
+the start of the value or behind an ASCII whitespace; it is not empty, contains no ASCII whitespace
+and extends to the next ASCII whitespace or the end; the attribute is dropped from the remaining
+attributes exactly when this class is the whole value. -/
+def IsLanguageClass (v lang : Str) (keep : Bool) : Prop :=
+  ∃ a r, v = a ++ langPrefix ++ lang ++ r ∧ lang ≠ [] ∧ (∀ b ∈ lang, isAsciiWs b = false) ∧
+    (a = [] ∨ ∃ a' w, a = a' ++ [w] ∧ isAsciiWs w = true) ∧
+    (r = [] ∨ ∃ w r', r = w :: r' ∧ isAsciiWs w = true) ∧
+    (keep = false ↔ (a = [] ∧ r = []))
+
+/-- One iteration of the loop at an occurrence `a ++ language- ++ r0` that is not skipped. -/
+theorem found_at (a r0 : Str) (lg : Str) (keep : Bool)
+    (hbefore : a = [] ∨ ∃ a' w, a = a' ++ [w] ∧ isAsciiWs w = true)
+    (hne : languageEnd (a ++ langPrefix ++ r0) r0 (a.length + langPrefix.length) ≠ a.length + langPrefix.length)
+    (hss : strSlice (a ++ langPrefix ++ r0) (a.length + langPrefix.length)
+      (languageEnd (a ++ langPrefix ++ r0) r0 (a.length + langPrefix.length)) = some lg)
+    (hkeep : decide (a.length ≠ 0 ∨
+      languageEnd (a ++ langPrefix ++ r0) r0 (a.length + langPrefix.length) ≠ (a ++ langPrefix ++ r0).length) = keep) :
+    IsLanguageClass (a ++ langPrefix ++ r0) lg keep := by
+  have hlen1 : (a ++ langPrefix).length = a.length + langPrefix.length := by simp
+  have hlg : lg = ((a ++ langPrefix ++ r0).take (languageEnd (a ++ langPrefix ++ r0) r0 (a.length + langPrefix.length))).drop
+      (a.length + langPrefix.length) := by
+    unfold strSlice at hss
+    split at hss
+    · simpa using hss.symm
+    · simp at hss
+  unfold languageEnd at hlg hne hkeep
+  cases hf : findP isAsciiWs r0 with
+  | none =>
+    rw [hf] at hlg hne hkeep
+    simp only at hlg hne hkeep
+    have hall := findP_eq_none hf
+    have hlg' : lg = r0 := by
+      rw [hlg, List.take_length, ← hlen1]
+      exact List.drop_left' rfl
+    subst hlg'
+    refine ⟨a, [], by simp, ?_, hall, hbefore, Or.inl rfl, ?_⟩
+    · intro e
+      subst e
+      apply hne
+      simp
+    · rw [← hkeep]
+      simp only [ne_eq, not_true_eq_false, or_false, decide_not, Bool.not_eq_false', decide_eq_true_eq,
+        and_true]
+      exact List.length_eq_zero_iff
+  | some pos =>
+    rw [hf] at hlg hne hkeep
+    simp only at hlg hne hkeep
+    obtain ⟨pre, c, post, rfl, hpre', hc, rfl⟩ := findP_eq_some hf
+    have hlg' : lg = pre := by
+      rw [hlg]
+      have h1 : (a ++ langPrefix ++ (pre ++ c :: post)).take (a.length + langPrefix.length + pre.length)
+          = a ++ langPrefix ++ pre := by
+        have : a ++ langPrefix ++ (pre ++ c :: post) = (a ++ langPrefix ++ pre) ++ c :: post := by simp
+        rw [this]
+        exact List.take_left' (by simp; omega)
+      rw [h1, ← hlen1]
+      exact List.drop_left' rfl
+    subst hlg'
+    refine ⟨a, c :: post, by simp, ?_, hpre', hbefore, Or.inr ⟨c, post, rfl, hc⟩, ?_⟩
+    · intro e
+      subst e
+      simp at hne
+    · rw [← hkeep]
+      have hlt' : a.length + langPrefix.length + lg.length ≠ (a ++ langPrefix ++ (lg ++ c :: post)).length := by
+        simp; omega
+      constructor
+      · intro hd
+        simp only [decide_eq_false_iff_not, not_or] at hd
+        exact absurd hlt' hd.2
+      · intro hh
+        cases hh.2
+
+/-- The guard at an occurrence behind `a`: it skips, or it does not and `a` is empty or ends in
+ASCII whitespace. -/
+theorem guard_cases (a r0 : Str) :
+    startGuard (a ++ langPrefix ++ r0) a.length = some true ∨
+    (startGuard (a ++ langPrefix ++ r0) a.length = some false ∧
+      (a = [] ∨ ∃ a' w, a = a' ++ [w] ∧ isAsciiWs w = true)) := by
+  unfold startGuard
+  rcases List.eq_nil_or_concat a with rfl | ⟨a', w, ha⟩
+  · right; simp
+  · rw [List.concat_eq_append] at ha
+    subst ha
+    have hget : (a' ++ [w] ++ langPrefix ++ r0)[(a' ++ [w]).length - 1]? = some w := by
+      simp [List.append_assoc]
+    have hn0 : (a' ++ [w]).length ≠ 0 := by simp
+    simp only [ne_eq, hn0, not_false_eq_true, if_true, hget]
+    cases hw : isAsciiWs w
+    · left; rfl
+    · right; exact ⟨rfl, Or.inr ⟨a', w, rfl, hw⟩⟩
+
+theorem langLoop_found (v : Str) :
+    ∀ l : List Nat, (∀ ms ∈ l, ms + langPrefix.length ≤ v.length ∧ langPrefix.isPrefixOf (v.drop ms) = true) →
+      ∀ lang keep, langLoop v l = .ok (some (lang, keep)) → IsLanguageClass v lang keep := by
+  intro l
+  induction l with
+  | nil => intro _ lang keep h; simp [langLoop] at h
+  | cons ms rest ih =>
+    intro hl lang keep h
+    obtain ⟨hle, hpre⟩ := hl ms (by simp)
+    have ihr := ih (fun m hm => hl m (by simp [hm]))
+    -- write `v` around the occurrence
+    obtain ⟨r0, hr0⟩ := List.isPrefixOf_iff_prefix.mp hpre
+    have hms : ms ≤ v.length := by omega
+    obtain ⟨a, hv, ha⟩ : ∃ a, v = a ++ langPrefix ++ r0 ∧ a.length = ms := by
+      refine ⟨v.take ms, ?_, by simp [List.length_take, Nat.min_eq_left hms]⟩
+      have := (List.take_append_drop ms v).symm
+      rw [← hr0] at this
+      simpa [List.append_assoc] using this
+    subst ha
+    clear hms hle hpre hr0 hl
+    subst hv
+    unfold langLoop at h
+    dsimp only at h
+    have hdrop : (a ++ langPrefix ++ r0).drop (a.length + langPrefix.length) = r0 := by
+      have : (a ++ langPrefix).length = a.length + langPrefix.length := by simp
+      rw [← this]
+      exact List.drop_left' rfl
+    rcases guard_cases a r0 with hg | ⟨hg, hbefore⟩
+    · rw [hg] at h
+      exact ihr lang keep h
+    · rw [hg] at h
+      simp only at h
+      cases hsf : strFrom (a ++ langPrefix ++ r0) (a.length + langPrefix.length) with
+      | none => rw [hsf] at h; simp at h
+      | some strEnd =>
+        have hse : strEnd = r0 := by
+          unfold strFrom at hsf
+          split at hsf
+          · simp only [Option.some.injEq] at hsf
+            rw [← hsf]
+            exact hdrop
+          · simp at hsf
+        subst hse
+        rw [hsf] at h
+        simp only at h
+        split at h
+        · exact ihr lang keep h
+        · rename_i hne
+          split at h
+          · simp at h
+          · cases hss : strSlice (a ++ langPrefix ++ strEnd) (a.length + langPrefix.length)
+                (languageEnd (a ++ langPrefix ++ strEnd) strEnd (a.length + langPrefix.length)) with
+            | none => rw [hss] at h; simp at h
+            | some lg =>
+              rw [hss] at h
+              simp only [Out.ok.injEq, Option.some.injEq, Prod.mk.injEq] at h
+              obtain ⟨rfl, hkeep⟩ := h
+              exact found_at a strEnd lg keep hbefore hne hss hkeep
+
+theorem scanClass_language (v : Str) {lang : Str} {keep : Bool}
+    (h : scanClass v = .ok ⟨some lang, keep⟩) : IsLanguageClass v lang keep := by
+  unfold scanClass at h
+  cases hl : langLoop v (findIter langPrefix v) with
+  | ok r =>
+    rw [hl] at h
+    cases r with
+    | none => simp at h
+    | some p =>
+      obtain ⟨lg, kp⟩ := p
+      simp only [Out.ok.injEq, LangRes.mk.injEq, Option.some.injEq] at h
+      obtain ⟨rfl, rfl⟩ := h
+      exact langLoop_found v _ (fun ms hm => findIter_mem (by simp [langPrefix]) hm) _ _ hl
+  | err => rw [hl] at h; simp at h
+  | panic => rw [hl] at h; simp at h
+  | hang => rw [hl] at h; simp at h
 
 end Ruma.ScanLang
